@@ -7,7 +7,7 @@ import magpylib as magpy
 from magpylib._src.exceptions import MagpylibBadUserInput
 
 from harness.common import run_guarded
-from harness import octa, level2, l2b
+from harness import octa, level2, l2b, l2b_hist
 from harness.shrink import shrink_list
 
 
@@ -242,6 +242,34 @@ def sup_search(ctx, n):
                       {"kind": "float-sup", "entries": small, "observers": dobs, "field": field, "sumup": sumup})
 
 
+# ------------------------------------------------------------------ histories: field call -> edit -> field call
+def hist_search(ctx, n):
+    rng = ctx.rng
+    for _ in range(n):
+        h = l2b_hist.g_history(rng, nops=rng.randint(3, 9))
+        ctx.case(("history", json.dumps(h, sort_keys=True)), True)
+        for op in h["ops"]:
+            ctx.bump("history-op:" + op["op"])
+        res = l2b_hist.run_history(h)
+        if res is None:
+            continue
+
+        def fails(ops, h=h):
+            try:
+                return l2b_hist.run_history(dict(h, ops=ops)) is not None
+            except Exception:   # pylint: disable=broad-except
+                return False
+        ops = shrink_list(h["ops"], fails, max_steps=80)
+        small = dict(h, ops=ops)
+        res2 = l2b_hist.run_history(small)
+        if res2 is None:
+            small, res2 = h, res
+        idx, clause, detail = res2
+        ctx.impl_fail(f"{clause}/history:{l2b_hist.trigger(small, idx)}",
+                      detail + f" (field call #{sum(1 for o in small['ops'][:idx + 1] if o['op'] == 'field')} of the history)",
+                      {"kind": "history", "history": small})
+
+
 # ------------------------------------------------------------------ float: linearity in the excitation
 LIN_TOL = 1e-9
 EXC = {"Cuboid": "polarization", "Cylinder": "polarization", "CylinderSegment": "polarization", "Sphere": "polarization",
@@ -367,6 +395,7 @@ def run(ctx):
     run_guarded(ctx, lambda: exact_oracle(ctx, sub), "C05 exact oracle")
     run_guarded(ctx, lambda: sup_search(ctx, ctx.n(150, 4000) * (4 if big else 1)), "C05 superposition search")
     run_guarded(ctx, lambda: lin_search(ctx, ctx.n(25, 500) * (3 if big else 1)), "C05 linearity search")
+    run_guarded(ctx, lambda: hist_search(ctx, ctx.n(150, 3000) * (4 if big else 1)), "C05 history search")
 
 
 def replay(ctx, obj):
@@ -379,6 +408,9 @@ def replay(ctx, obj):
     elif kind == "float-sup":
         res = sup_fails(rp["entries"], rp["observers"], rp["field"], rp["sumup"])
         res = None if res is None else res[1]
+    elif kind == "history":
+        r = l2b_hist.run_history(rp["history"])
+        res = None if r is None else f"field op #{r[0]}: {r[2]}"
     elif kind == "float-lin":
         dev = lin_eval(rp["source"], rp["points"], rp["field"], rp["a"], rp["b"], rp["e1"], rp["e2"], rp["use_mag"])
         res = None if dev <= LIN_TOL else f"relative deviation {dev:.2e}"
